@@ -236,6 +236,23 @@ def connection_target_in_other_import(rng, case):
 
 
 @imut
+def duplicate_connection_target(rng, case):
+    """two connections of one import entry target the same object (each spelled on its own: by id or by alias)"""
+    cands = [imp for imp in case["imports"] if imp["conns"] and all(c.get("render_native_target") is None for c in imp["conns"])]
+    if not cands:
+        imp = rng.choice(case["imports"])
+        tgt = _some_target(rng, imp)
+        if tgt is None:
+            return None
+        imp["conns"].append({"to": tgt, "add": _fresh_native_cp(rng, case), "render_native_target": None})
+    else:
+        imp = rng.choice(cands)
+    tgt = rng.choice(imp["conns"])["to"]
+    imp["conns"].append({"to": tgt, "add": _fresh_native_cp(rng, case), "render_native_target": None})
+    return "two connections of one import target the same object"
+
+
+@imut
 def add_dependency_not_native_checkpoint(rng, case):
     imp = rng.choice(case["imports"])
     tgt = _some_target(rng, imp)
